@@ -67,7 +67,7 @@ var jsGlobals = data.Map{"G_MAP": data.Map{"k2": data.Int(2), "k1": data.String(
 // the generator writes nothing that is shared and produces identical bytes.
 func H_jsPure(t int, es6 bool) {
 	reg := jsMust(jsGlobals, jsFiles[t]...)
-	before := verifDeepDigest(reg, Funcs, PrintDirectives)
+	before := verifDeepDigest(reg) + verifGlobalsDigest()
 	verifFreeze("compiled registry", reg)
 	verifFreezeGlobals()
 	for _, f := range reg.SoyFiles {
@@ -77,7 +77,33 @@ func H_jsPure(t int, es6 bool) {
 		verifAssert(o1 == o2, "C13: two generations of the same file differ")
 	}
 	verifUnfreeze()
-	verifAssert(before == verifDeepDigest(reg, Funcs, PrintDirectives), "native: the registry changed during js generation")
+	verifAssert(before == verifDeepDigest(reg) + verifGlobalsDigest(), "native: the registry changed during js generation")
+}
+
+// files the JavaScript backend rejects part-way through (after some output was produced)
+var jsFailing = []string{
+	"{namespace f}\n/** @param x */\n{template .t}\nsome text {$x} more{if $x}{$x|notAJsDirective}{/if}\n{/template}\n",
+	"{namespace f}\n/** @param x */\n{template .t}\n{call .u data=\"all\"/}text{notAJsFunction($x)}\n{/template}\n/** @param x */\n{template .u}\n{$x}\n{/template}\n",
+	"{namespace f}\n/** @param x */\n{template .t}\n{msg desc=\"d\"}Hi {$x}{/msg}{let $y: notAJsFunction(1) /}{$y}\n{/template}\n",
+}
+
+// H_jsAfterFailure (C13): the JavaScript of a file is the same before and after a generation of
+// another file that failed part-way (k indexes jsFailing): nothing of an aborted generation
+// survives into the next.
+func H_jsAfterFailure(t, k int, es6 bool) {
+	reg := jsMust(jsGlobals, jsFiles[t]...)
+	bad := template.Registry{}
+	bf, perr := parse.SoyFile("bad.soy", jsFailing[k])
+	verifAssert(perr == nil && bad.Add(bf) == nil, "harness template does not parse")
+	for _, f := range reg.SoyFiles {
+		want, e1 := jsWrite(f, es6)
+		_, eb := jsWrite(bf, es6)
+		verifAssert(eb != nil, "harness: the failing file was accepted by the JavaScript backend")
+		got, e2 := jsWrite(f, es6)
+		verifAssert(e1 == nil && e2 == nil, "js generation failed")
+		verifObserve("js", got)
+		verifAssert(got == want, "C13: generated JavaScript differs after an earlier generation that failed")
+	}
 }
 
 var jsOrderSites = []string{"func:difference#0", "func:walk#0", "func:nodeFromValue#0", "func:setPlaceholderNames#0"}
